@@ -345,8 +345,6 @@ class TransportRefsContainer(RefsContainer):
                 return header + f.read(40 - len(SYMREF))
 
     def _remove_packed_ref(self, name):
-        if self._packed_refs is None:
-            return
         # reread cached refs from disk, while holding the lock
 
         self._packed_refs = None
